@@ -66,6 +66,12 @@ def gen_script(rng, cid, cfg, length, long_texts=0.0):
         # late answer to the PREVIOUS holder arrives afterwards and must not touch the newcomer
         out += [{"a": "password", "text": f.password(True)}, {"a": "reannounce"}, {"a": "password", "text": f.password(True)},
                 {"a": "stale", "svc": rng.choice(svcs), "text": gen.reply_text(rng, rng.choice(["OKacct", "NO", "MORE", "OK"]))}]
+    if long_texts >= 0.5 and svcs:
+        # (in the sets that are about over-long texts every client is, first of all, told to retry with such a text by whichever
+        # service its password makes the daemon ask - whatever the dice above came up with)
+        lrng = random.Random("long/%d/%d" % (cid, len(out)))
+        out = [{"a": "host"}, {"a": "ident"}, {"a": "password", "text": "+x acct%d pw0" % (cid % 100)}] + \
+              [{"a": "reply", "svc": sv, "text": _long_text(lrng, "AGAIN")} for sv in svcs] + out
     tail = rng.choice(["hurry", "disconnect", "registered", "timeout", "reannounce", "registered", "disconnect"])
     out.append({"a": tail})
     if tail in ("hurry", "timeout"):
